@@ -120,9 +120,10 @@ def gen():
 # ------------------------------------------------------------------------------------------
 # feature domain and real-code driver
 # ------------------------------------------------------------------------------------------
-CHANS = ["ryd", "xy", "dig", "both"]
+CHANS = ["ryd", "xy", "dig", "both", "ryd+idle", "ryd+det", "ryd+phase"]
 EFFS = ["none", "eff2", "eff3"]
-COQ_CHAN = {"ryd": "ChRyd", "xy": "ChXY", "dig": "ChDig", "both": "ChBoth"}
+COQ_CHAN = {"ryd": "ChRyd", "xy": "ChXY", "dig": "ChDig", "both": "ChBoth", "ryd+idle": "ChRydIdle",
+            "ryd+det": "ChRydDet", "ryd+phase": "ChRydPhase"}
 COQ_EFF = {"none": "EffNone", "eff2": "Eff2", "eff3": "Eff3"}
 BOOLS = ["leak", "relax", "deph", "hyper", "depol", "prep", "other", "dmrg", "init"]
 _SEQS = {}
@@ -150,9 +151,30 @@ def seq_for(chan):
         seq.declare_channel("ch", "rydberg_global")
         seq.add(pulse, "ch")
         seq.declare_channel("ch2", "raman_local", initial_target="q0")
-        seq.add(pulse, "ch2")
+        if chan == "both":
+            seq.add(pulse, "ch2")
+        elif chan == "ryd+det":      # zero amplitude, non-zero detuning: pulser counts the channel as used
+            seq.add(Pulse.ConstantPulse(40, 0.0, 1.5, 0.0), "ch2")
+        elif chan == "ryd+phase":    # zero amplitude, zero detuning, phase only: unused for pulser
+            seq.add(Pulse.ConstantPulse(40, 0.0, 0.0, 1.0), "ch2")
+        # "ryd+idle": declared, never played
     _SEQS[chan] = seq
     return seq
+
+
+_BASES = {}
+
+
+def pulser_bases(chan):
+    """The bases pulser's Hamiltonian involves for the sequence (sampled `used_bases`)."""
+    from pulser.sampler import sample
+    import warnings
+
+    if chan not in _BASES:
+        with warnings.catch_warnings():
+            warnings.simplefilter("ignore")
+            _BASES[chan] = frozenset(sample(seq_for(chan)).used_bases)
+    return _BASES[chan]
 
 
 def noise_for(f):
@@ -243,12 +265,14 @@ def supported_py(f) -> bool:
     """The specification table (mirrors Model.Accepts.supported; cross-checked against it)."""
     if f["hyper"] or (f["init"] and f["prep"]):
         return False
-    dim = (3 if f["chan"] == "both" else 2) + (1 if f["leak"] else 0)
+    used = pulser_bases(f["chan"])  # ask pulser which bases the Hamiltonian of this sequence involves
+    dim = len(used) + 1 + (1 if f["leak"] else 0)
     shapes = {"eff2": [2], "eff3": [3], "none": [3] if f["leak"] else []}[f["eff"]]
     if f["be"] == "sv":
-        return f["chan"] == "ryd" and not f["leak"] and f["eff"] != "eff3"
+        return used == {"ground-rydberg"} and not f["leak"] and f["eff"] != "eff3"
     noise = any(f[k] for k in ("leak", "relax", "deph", "hyper", "depol", "prep", "other")) or f["eff"] != "none"
-    return f["chan"] in ("ryd", "xy") and all(s == dim for s in shapes) and not (f["dmrg"] and noise)
+    return (used in ({"ground-rydberg"}, {"XY"}) and all(s == dim for s in shapes)
+            and not (f["dmrg"] and noise))
 
 
 def feat_coq(f):
@@ -269,11 +293,18 @@ def domain(ctx):
                 n_l = sum(f[k] for k in ("relax", "deph", "hyper", "depol")) + (eff != "none")
                 if not ctx.thorough() and n_l > 1:
                     continue
+                # sequences with a second basis are decided before most features matter: quick keeps the
+                # combinations with at most two features switched on, thorough keeps all
+                if (not ctx.thorough() and chan not in ("ryd", "xy")
+                        and sum(f[k] for k in BOOLS) + (eff != "none") > 2):
+                    continue
                 out.append(f)
     return out
 
 
 def finding_key(f):
+    if f["chan"] in ("dig", "both", "ryd+idle", "ryd+det", "ryd+phase"):
+        return "multi-basis-sequence-accepted"
     if f["be"] == "sv" and f["chan"] == "xy":
         return "sv-accepts-xy"
     if f["be"] == "mps" and f["dmrg"]:
@@ -386,7 +417,8 @@ def run(ctx):
                    "class), every buildable feature combination", corr_ok, detail, kind="correspondence")
     ctx.obligation("correspondence:Model.Accepts.supported==specification table used by the falsifier", spec_ok,
                    sdetail, kind="correspondence")
-    ctx.rule = ("full product of channel basis (rydberg_global, mw_global, raman, rydberg+raman) x leakage x "
+    ctx.rule = ("full product of channel basis (rydberg_global, mw_global, raman, rydberg+raman with the raman channel driven / "
+                "idle / zero-amplitude detuning-only / phase-only) x leakage x "
                 "{relaxation, dephasing, hyperfine dephasing, depolarizing} x effective operators (none, 2x2, 3x3) x "
                 "state_prep_error x amplitude noise x solver x initial state x backend on a 2-atom MockDevice sequence "
                 "(quick: at most one Lindbladian kind at a time); combinations pulser itself refuses are counted as "
@@ -413,7 +445,7 @@ META = {
     "technique": ("Coq decision-table model (SV constructor guards, emu-mps dispatcher and DMRG guard regenerated "
                   "from source; adapter stages hand-written) + whole-domain reflection proof + exhaustive "
                   "correspondence of outcome classes with real Backend.run()"),
-    "text": ("Proved over the whole 2 x 6144 feature domain: accepts b f = true -> supported b f = true, from a closed "
+    "text": ("Proved over the whole 2 x 10752 feature domain: accepts b f = true -> supported b f = true, from a closed "
              "boolean table check evaluated by the Coq VM on the model regenerated from the current source; plus "
              "unconditional theorems that digital/mixed bases, hyperfine dephasing and wrongly-shaped effective "
              "operators are always rejected. Validated only: the model's outcome class equals the real run() outcome "
